@@ -123,7 +123,7 @@ def main(argv):
 
     # ---- 3. cases
     n = a.n or (cfg["n_quick"] if a.tier == "quick" else cfg["n_thorough"])
-    cases, hlog = core.run_harness(binp, pid, workdir, a.seed, n, a.tier, replay=a.replay)
+    cases, hlog = core.run_harness(binp, pid, workdir, a.seed, n, a.tier, replay=a.replay, procs=cfg.get("procs", 1))
     if cases is None:
         # the harness process itself died (OOM guard, fatal runtime error, global watchdog): the
         # implementation could not be run to completion on generated inputs
@@ -180,7 +180,7 @@ def main(argv):
         log("escalating search: %d mismatches, proof_broken=%s" % (len(mismatches), proof_broken))
         n2 = cfg["n_escalate"]
         seed2 = a.seed * 7919 + 13
-        cases2, hlog2 = core.run_harness(binp, pid, workdir, seed2, n2, "thorough", tag="esc")
+        cases2, hlog2 = core.run_harness(binp, pid, workdir, seed2, n2, "thorough", tag="esc", procs=cfg.get("procs", 1))
         if cases2 is not None:
             res2, err2 = core.coq_eval(cfg, cases2, workdir, tag="esc")
             res2.pop("scope", None)
